@@ -56,6 +56,27 @@ class _Rename(ast.NodeTransformer):
         self.generic_visit(node)
         return node
 
+    def _scoped(self, node):
+        # parameters of a lambda / nested function shadow the outer names in its body; their default values are outer expressions
+        a = node.args
+        params = {x.arg for x in a.posonlyargs + a.args + a.kwonlyargs} | ({a.vararg.arg} if a.vararg else set()) | ({a.kwarg.arg} if a.kwarg else set())
+        a.defaults = [self.visit(d) for d in a.defaults]
+        a.kw_defaults = [self.visit(d) if d is not None else None for d in a.kw_defaults]
+        inner = _Rename({k: v for k, v in self.mapping.items() if k not in params})
+        if isinstance(node, ast.Lambda):
+            node.body = inner.visit(node.body)
+        else:
+            node.body = [inner.visit(s_) for s_ in node.body]
+        return node
+
+    def visit_Lambda(self, node):
+        return self._scoped(node)
+
+    def visit_FunctionDef(self, node):
+        if node.name in self.mapping:
+            node.name = self.mapping[node.name]
+        return self._scoped(node)
+
 
 def _returns(fn):
     out = []
@@ -146,7 +167,9 @@ def _expand(helper, call, caller_names, drop_self, want_value, mode=None):
     if want_value and (not rets or any(r.value is None for r in rets) or (final is None and not early)):
         return None
     new = [copy.deepcopy(s) for s in body]
-    same = {p for p, v in binds if isinstance(v, ast.Name) and v.id == p}
+    rebound = {n.id for s_ in body for n in ast.walk(s_) if isinstance(n, ast.Name) and isinstance(n.ctx, (ast.Store, ast.Del))}
+    # (a parameter the helper rebinds needs its own copy: the caller's variable of the same name keeps its value)
+    same = {p for p, v in binds if isinstance(v, ast.Name) and v.id == p and p not in rebound}
     hl = (_locals(helper) | {p for p, v in binds}) - same - {'self'}
     _counter[0] += 1
     clash = {n: '%s__i%d' % (n, _counter[0]) for n in hl}      # every expansion gets its own copies of the helper's locals
